@@ -335,6 +335,44 @@ Definition facts_ok : bool :=
   && evs_eqb ev_pool_closeIdleReaders exp_pool_close_idle
   && evs_eqb ev_pool_getIdleReadersSince exp_pool_get_idle.
 
+(* ---------- tie T: load() returns holding the read lock ----------
+   load() is entered with the read lock held (its contract) and every caller
+   runs a deferred RUnlock afterwards, so every return of load() must again hold
+   the read lock. Checked on the regenerated event list of load(): walking the
+   events in source order, tracking whether the read lock is held ([held]),
+   whether a deferred function that ends holding it has been registered ([dfr]),
+   and restoring the state after an if-block that returned. *)
+Open Scope string_scope.
+Definition is_ev (k t : string) (e : string * string) : bool := String.eqb (fst e) k && String.eqb (snd e) t.
+
+Fixpoint balance (evs : list (string * string)) (held dfr indef dheld : bool) (stk : list (bool * bool)) : bool :=
+  match evs with
+  | [] => true
+  | e :: r =>
+      if indef then
+        if is_ev "enddefer" "funclit" e then balance r held dheld false false stk
+        else if is_ev "call" "r.readerMx.RLock" e then balance r held dfr true true stk
+        else if is_ev "call" "r.readerMx.RUnlock" e then balance r held dfr true false stk
+        else balance r held dfr true dheld stk
+      else if is_ev "defer" "funclit" e then balance r held dfr true false stk
+      else if is_ev "call" "r.readerMx.RLock" e then balance r true dfr false false stk
+      else if is_ev "call" "r.readerMx.RUnlock" e then balance r false dfr false false stk
+      else if String.eqb (fst e) "if" then balance r held dfr false false ((held, false) :: stk)
+      else if String.eqb (fst e) "return" then
+        (held || dfr)
+        && balance r held dfr false false (match stk with (h, _) :: s => (h, true) :: s | [] => [] end)
+      else if String.eqb (fst e) "endif" then
+        match stk with
+        | (h, true) :: s => balance r h dfr false false s
+        | (_, false) :: s => balance r held dfr false false s
+        | [] => balance r held dfr false false []
+        end
+      else balance r held dfr false false stk
+  end.
+Close Scope string_scope.
+
+Definition load_lock_balance : bool := balance ev_load true false false false [].
+
 (* ---------- correspondence cases ---------- *)
 (* classes of observed results *)
 Inductive rclass := KOk | KDiff | KLoadErr | KUnloaded | KNil | KNotIdle | KTrue | KFalse | KPanic | KOther | KCloseErr.
